@@ -5,7 +5,7 @@
 From Coq Require Import String List Morphisms.
 Require Import SC3.proofs.NumTac SC3.gen.Gen_builtins SC3.proofs.C12_num SC3.model.TaskQ SC3.model.Event.
 Require Import SC3.proofs.C09_order SC3.proofs.C14_keys SC3.proofs.C14_play SC3.proofs.C14_stream SC3.proofs.C14_pdur.
-Require Import SC3.proofs.C14_ppar SC3.proofs.C14_merge SC3.proofs.C14_mergethm SC3.proofs.C14_parfinal SC3.proofs.C14_ctl SC3.proofs.C14_embed.
+Require Import SC3.proofs.C14_ppar SC3.proofs.C14_merge SC3.proofs.C14_mergethm SC3.proofs.C14_parfinal SC3.proofs.C14_ctl SC3.proofs.C14_embed SC3.proofs.C14_open.
 From Coq Require Import Sorting.
 Import ListNotations.
 Open Scope Q_scope.
@@ -63,6 +63,7 @@ Proof. exact dur_chain_l. Qed.
    defined and is the detuned frequency) stamped logical time + latency; exactly one gate-off, later by sustain,
    iff the instrument has a gate; nothing else *)
 Theorem note_play_commands : forall K lib lat now node e d,
+  cached_params K (put "freq" (VNum (detuned_freq K e)) e) = None ->
   lib_at (sym_of (ev_call K (put "freq" (VNum (detuned_freq K e)) e) "instrument")) lib = Some d ->
   get "send_gate" e = None ->
   let ps := sent_params K d e in
@@ -78,6 +79,27 @@ Theorem note_play_commands : forall K lib lat now node e d,
        x = vnum (ev_call K (put "has_gate" (VBool (d_has_gate d)) (put "freq" (VNum (detuned_freq K e)) e)) a)) /\
   (forall t, 0 <= t -> stamp now t == now + t).
 Proof. exact note_play_commands_l. Qed.
+
+(* note_play_commands holds for EVERY play of an event object, not only the first: its guard cached_params = None (the
+   control list is computed from the event's current keys) holds when no msg_params was given, and -- because play marks
+   the object as playing -- for the played object itself, after any later change of any other key, and so for its copies.
+   Only a non-empty msg_params given by the user on a never-played event is sent as given (note_play_cached). *)
+Theorem replayed_event_recomputes : forall K lib node e k v, String.eqb "is_playing" k = false ->
+  cached_params K (play_note_upd K lib node e) = None /\
+  cached_params K (put k v (play_note_upd K lib node e)) = None.
+Proof. exact replay_recomputes_l. Qed.
+
+Theorem cached_only_before_first_play : forall K e,
+  (truthy (plain K e "is_playing") = true -> cached_params K e = None) /\
+  (get "msg_params" e = None -> cached_params K e = None).
+Proof. exact cached_only_before_first_play. Qed.
+
+Theorem note_play_cached : forall K lib lat now node e ps,
+  cached_params K (put "freq" (VNum (detuned_freq K e)) e) = Some ps ->
+  exists e2 gate, play_note K lib lat now node e =
+    (stamp now lat, MNew (sym_of (ev_call K e2 "instrument")) node (action_number (ev_call K e2 "add_action"))
+                         (vnum (ev_call K e2 "group")) ps) :: gate.
+Proof. exact note_play_cached_l. Qed.
 
 (* an event with a Rest in any key is a rest; a rest pulled by a player sends nothing; the filling events of
    Pdelta and Ppar are rests *)
@@ -227,6 +249,29 @@ Proof. exact sends_complete_l. Qed.
 Theorem embed_returns_input : forall c K lib, fix_pchain_return c = true ->
   forall dep s inev mc o ret mc', ret_wf s -> snext c K lib dep s inev mc = (RStop o ret, mc') -> ret = inev.
 Proof. exact embed_returns_input_l. Qed.
+
+(* Pdelta(t, p) as a list (repaired code): one rest -- of length t (times the input event's stretch, none here) -- when
+   t > 0, then exactly p's own events *)
+Theorem pdelta_stream : forall c K lib, fix_pdelta_input c = true ->
+  forall fuel dep t s inev mc,
+  stream_run c K lib (S fuel) (S dep) (SDelta true t s) inev mc
+  = if ngt (vnum t) (F 0) then silent t inev :: stream_run c K lib fuel dep s inev mc
+    else stream_run c K lib (S fuel) dep s inev mc.
+Proof. exact pdelta_stream_l. Qed.
+
+Theorem pdelta_rest_delta : forall K t inev tq, get "stretch" inev = None -> val (vnum t) tq ->
+  (exists n, t = VNum n) -> delta_q K (silent t inev) == tq /\ is_rest (silent t inev) = true.
+Proof. exact pdelta_rest_delta_l. Qed.
+
+(* FALSE of the faithful model (and of SuperCollider's Ppar + Event.silent): with a 'stretch' key in the event given to Ppar
+   the filling rests are stretched twice; voice 0's second event, at its own time 2, is played at 3.  This is why
+   ppar_preserves_child_timelines assumes get "stretch" inev = None. *)
+Theorem ppar_stretched_input_refuted :
+  map (fun b => (Qred (fst b), voice b))
+      (filter (fun b => match snd b with MNew _ _ _ _ _ => true | _ => false end)
+              (sends patched K0 the_lib 0 20 6 stretch_witness [("stretch"%string, VNum (I 2)); ("legato"%string, VNum (F (1 # 2)))] 0))
+  = [(0, 0%Z); (0, 1%Z); (3, 0%Z)].
+Proof. exact ppar_stretched_input_refuted_l. Qed.
 
 (* ---- the defects of the code as released (each is replayed on the library by harness/props/C14.py) ------------ *)
 (* Pbind(dur = [Rest(1), 1]): nothing is ever played (the player yields a Rest object and is not re-scheduled) *)
